@@ -10,10 +10,11 @@ Import ListNotations.
 From GMS Require Import Lang.C24Proc Lang.C24ProcProofs.
 Open Scope Z_scope.
 
-(* pc_in_bounds (all operation lists, all states, runs of any length): if every If/Goto index lies in [0, len] the
+(* pc_in_bounds (all operation lists, all states whose registered handlers carry a non-negative DECLARE counter [hok],
+   runs of any length, error handling by EXIT/CONTINUE handlers included): if every If/Goto index lies in [0, len] the
    interpreter never hits "negative function counter" and never indexes the operation list out of range *)
 Theorem C24_pc_in_bounds : forall ops, targets_ok ops = true ->
-  forall fuel counter st, -1 <= counter < zlen ops \/ counter = -1 -> run ops fuel counter st <> MPanic.
+  forall fuel counter st, hok st -> -1 <= counter -> run ops fuel counter st <> MPanic.
 Proof. exact pc_in_bounds. Qed.
 Print Assumptions C24_pc_in_bounds.
 
@@ -33,6 +34,47 @@ Theorem C24_reused_label_agreement_refuted :
   /\ targets_ok (parse stale_prog) = true.
 Proof. exact stale_label_diverges. Qed.
 Print Assumptions C24_reused_label_agreement_refuted.
+
+Theorem C24_initial_state_ok : forall ps us, hok (init_state ps us).
+Proof. exact hok_init. Qed.
+Print Assumptions C24_initial_state_ok.
+
+(* EXIT handlers leave their block without popping it: definition @u0 = 1, machine @u0 = 2 and two scopes left *)
+Theorem C24_exit_handler_scope_balance_refuted :
+  (exists st, exec 20 exit_leak_prog (init_state [] []) = (ONormal, st) /\ assocN 0%N (users st) = Some (Some 1)
+              /\ assocN 1%N (users st) = None)
+  /\ (exists st, call exit_leak_prog 100 [] [] = MDone st /\ assocN 0%N (users st) = Some (Some 2)
+                 /\ assocN 1%N (users st) = None /\ length (scopes st) = 2%nat).
+Proof. exact exit_handler_leaks_scope. Qed.
+Print Assumptions C24_exit_handler_scope_balance_refuted.
+
+(* with nested handlers the outermost one runs instead of the most local one *)
+Theorem C24_most_local_handler_refuted :
+  (exists st, exec 20 nested_handler_prog (init_state [] []) = (ONormal, st) /\ assocN 0%N (users st) = Some (Some 20))
+  /\ (exists st, call nested_handler_prog 100 [] [] = MDone st /\ assocN 0%N (users st) = Some (Some 10)).
+Proof. exact outermost_handler_wins. Qed.
+Print Assumptions C24_most_local_handler_refuted.
+
+(* a handler whose statement returns rows (SET @u = ...) restarts the procedure for ever *)
+Theorem C24_handler_with_rows_terminates_refuted :
+  (exists st, exec 20 restart_prog (init_state [] []) = (ONormal, st) /\ assocN 1%N (users st) = Some (Some 2))
+  /\ call restart_prog 3000 [] [] = MNoFuel.
+Proof. exact handler_with_rows_restarts. Qed.
+Print Assumptions C24_handler_with_rows_terminates_refuted.
+
+(* non-vacuity for handlers and for a LOOP starting with a shadowing block left by ITERATE: agreement *)
+Example C24_handler_agreement_nonvacuous :
+  exists st1 st2, exec 30 handler_good_prog (init_state [] []) = (ONormal, st1) /\
+    call handler_good_prog 200 [] [] = MDone st2 /\ users st1 = users st2 /\ users st1 = [(0%N, Some 1)].
+Proof. exact handler_good_agrees. Qed.
+Print Assumptions C24_handler_agreement_nonvacuous.
+
+Example C24_loop_block_agreement_nonvacuous :
+  exists st1 st2, exec 60 loop_block_prog (init_state [] []) = (ONormal, st1) /\
+    call loop_block_prog 500 [] [] = MDone st2 /\ users st1 = users st2 /\ users st1 = [(0%N, Some 1)]
+    /\ length (scopes st2) = 1%nat.
+Proof. exact loop_block_agrees. Qed.
+Print Assumptions C24_loop_block_agreement_nonvacuous.
 
 (* non-vacuity: nested block, WHILE with ITERATE and LEAVE, shadowing -- machine and definition agree, scopes balanced *)
 Example C24_agreement_nonvacuous :
